@@ -33,6 +33,7 @@ def c3(ctx):
     serial.serializer_raw_text(ctx)
     serial.str_is_serialize(ctx)
     serial.layout(ctx)
+    writers.charts_items(ctx)
 
 
 def c4(ctx):
